@@ -140,7 +140,8 @@ def _check(prop, tier, seed, args, t0):
     functions = []
     for target, c in sorted(REGISTRY.items()):
         if prop in c.properties:
-            functions.append(target)
+            if c.target not in functions:
+                functions.append(c.target)
             for cfg in c.configs:
                 if getattr(c, 'thorough_only', False) and tier != 'thorough':
                     continue
@@ -151,11 +152,31 @@ def _check(prop, tier, seed, args, t0):
     if args.only:
         jobs = [j for j in jobs if re.search(args.only, str(j[1]) + str(j[2]))]
     results = []
+    externals = []
+    for ext in meta.get('external', []):
+        if tier == 'quick' and ext.get('thorough_only'):
+            continue
+        te = time.time()
+        pe = subprocess.Popen(ext['cmd'], cwd=VERIF, stdout=subprocess.PIPE, stderr=subprocess.STDOUT, text=True)
+        externals.append((ext, pe, te))
     if jobs:
         ctxmp = multiprocessing.get_context('fork')
         with ctxmp.Pool(processes=max(1, min(args.jobs, len(jobs)))) as pool:
             for r in pool.imap_unordered(_unit_job, jobs):
                 results.append(r)
+    for ext, pe, te in externals:
+        try:
+            outp, _ = pe.communicate(timeout=ext.get('timeout', 900))
+        except subprocess.TimeoutExpired:
+            pe.kill()
+            outp = 'timeout'
+        ok = pe.returncode == 0 and 'error' not in (outp or '').lower()
+        results.append(dict(target='external:' + ext['name'], cfg='-', cfg_raw={}, paths=1, vacuous_paths=0, unsupported=[],
+                            witnesses=[], errors=[], models=[], wall_s=time.time() - te,
+                            obligations=[dict(name='external:%s#%s' % (ext['name'], o), kind='lemma',
+                                              result='unsat' if ok else 'unknown', solver=ext['solver'],
+                                              time=round((time.time() - te) / max(1, len(ext['obligations'])), 3), info={}, pc=[],
+                                              reason=(outp or '')[-400:], genuine=False) for o in ext['obligations']]))
     results.sort(key=lambda r: (r['target'], r['cfg']))
 
     # ---------------- classify obligations
@@ -214,13 +235,14 @@ def _check(prop, tier, seed, args, t0):
     # ---------------- path witnesses + contract samples on the real code (differential / run-time contracts)
     witems = []
     for r in results:
-        if r['target'].startswith('lemma:'):
+        if r['target'].startswith(('lemma:', 'external:')):
             continue
         for w in r['witnesses']:
             witems.append(dict(target=r['target'], cfg_raw=r['cfg_raw'], inputs=w['inputs'], expect=w['expect'],
                                exact=w['exact'], src='path-witness p%d' % w['path'], cfg=r['cfg']))
-    for target in functions:
-        c = REGISTRY[target]
+    for target, c in sorted(REGISTRY.items()):
+        if prop not in c.properties:
+            continue
         for cfg in c.configs:
             for smp in c.samples(cfg):
                 witems.append(dict(target=target, cfg_raw=cfg, inputs=smp, expect=None, exact=False, src='sample',
@@ -285,7 +307,7 @@ def _check(prop, tier, seed, args, t0):
     if n_obl == 0:
         guard_errors.append('no obligations were generated')
     for r in results:
-        if r['target'].startswith('lemma:'):
+        if r['target'].startswith(('lemma:', 'external:')):
             continue
         if r['paths'] and r['vacuous_paths'] == r['paths']:
             guard_errors.append('all paths of %s[%s] are vacuous (contradictory precondition?)' % (r['target'], r['cfg']))
